@@ -656,18 +656,26 @@ Section Open2.
     run_step sp s = (OOk, s') -> dict_get k (ctx s') = None.
   Proof.
     intros Hin Hk. unfold Engine.run_step.
-    destruct (match s_while sp with Some w => _ | None => _ end) as [[| | |] s2]; simpl;
-      intros H; inversion H; subst.
-    unfold unset_step_input. rewrite Hin. simpl. eapply pop_all_absent; eauto.
+    assert (C : forall s1, run_step_core rg rp sp s1 = (OOk, s') -> dict_get k (ctx s') = None).
+    { intros s1. unfold run_step_core.
+      destruct (match s_while sp with Some w => _ | None => _ end) as [[| | |] s2]; simpl;
+        intros H; inversion H; subst.
+      unfold unset_step_input. rewrite Hin. simpl. eapply pop_all_absent; eauto. }
+    unfold describe. destruct (s_desc sp) as [ds|]; [|apply C].
+    destruct (py_truth ds); [|apply C].
+    destruct (fmt _ ds) as [x|n m|]; simpl; try discriminate.
+    destruct (as_bool _ (s_run sp)) as [[|]|n m|]; simpl; try discriminate; [|apply C].
+    destruct (as_bool _ (s_skip sp)) as [b|n m|]; simpl; try discriminate. apply C.
   Qed.
 
   (** the in-arguments are merged into context before anything of the step evaluates *)
   Lemma run_step_in_first sp s :
     run_step sp s =
+    describe sp (set_step_input sp s) (fun s1 =>
     andthen (match s_while sp with
-             | Some w => while_loop w sp (set_step_input sp s)
-             | None => foreach_or_cond sp no_counters (set_step_input sp s)
-             end) (fun s2 => (OOk, unset_step_input sp s2)).
+             | Some w => while_loop w sp s1
+             | None => foreach_or_cond sp no_counters s1
+             end) (fun s2 => (OOk, unset_step_input sp s2))).
   Proof. reflexivity. Qed.
 End Open2.
 
@@ -1118,9 +1126,14 @@ Section Invariant.
     intros s0 s H. unfold run_step.
     assert (H1 : ext s0 (set_step_input sp s)).
     { unfold set_step_input. destruct (s_in sp) as [[|? ?]|]; auto using ext_set_ctx. }
-    apply ext_andthen.
-    - destruct (s_while sp); [now apply good_while_loop|now apply good_foreach_or_cond].
-    - intros s2 H2. simpl. unfold unset_step_input. destruct (s_in sp); auto using ext_set_ctx.
+    assert (C : forall s1, ext s0 s1 -> ext s0 (snd (run_step_core rg rp sp s1))).
+    { intros s1 E1. unfold run_step_core. apply ext_andthen.
+      - destruct (s_while sp); [now apply good_while_loop|now apply good_foreach_or_cond].
+      - intros s2 H2. simpl. unfold unset_step_input. destruct (s_in sp); auto using ext_set_ctx. }
+    unfold describe. destruct (s_desc sp) as [d|]; [|now apply C].
+    destruct (py_truth d); [|now apply C].
+    apply ext_lift; [exact H1|intros _]. apply ext_lift; [exact H1|intros run_me].
+    destruct run_me; [|now apply C]. apply ext_lift; [exact H1|intros _]. now apply C.
   Qed.
 
   Lemma good_run_steps steps : good (run_steps rg rp steps).
@@ -1508,7 +1521,7 @@ Proof. destruct args as [[|x a]|], dict_none; reflexivity. Qed.
 (** * A whole-program instance: straight-line probe steps run in order and leave no residue *)
 Definition plain_probe (tag : string) : step :=
   mkstep "vprobe" BProbe (Some [(VStr "ptag", VStr tag)]) None None None
-         (VBool true) (VBool false) (VBool false) None None.
+         (VBool true) (VBool false) (VBool false) None None None.
 
 Definition probe_event (s : st) (tag : string) : val :=
   VList [VStr tag; getm "i" s; getm "whileCounter" s; getm "retryCounter" s;
@@ -1539,10 +1552,11 @@ Section Straight.
     (OOk, mkst (ctx s) (stack s) (trace s ++ [probe_event s tag]) (sleeps s) (next_eid s) (jit s)).
   Proof.
     destruct s as [c k tr sl ne j]. unfold sget. cbn [ctx]. intros Hp Hw.
-    unfold run_step, plain_probe, foreach_or_cond, has_foreach, cond, invoke, run_body, probe_step,
+    unfold run_step, describe, run_step_core, plain_probe, foreach_or_cond, has_foreach, cond, invoke,
+      run_body, probe_step,
       set_step_input, unset_step_input, probe_event, getm, sget, current_pipe, add_trace, set_ctx,
       dict_update, andthen.
-    cbn [s_in s_while s_foreach s_run s_skip s_retry s_body opt_truth as_bool py_truth lift negb
+    cbn [s_in s_while s_foreach s_run s_skip s_retry s_body s_desc opt_truth as_bool py_truth lift negb
          ctx stack trace sleeps next_eid jit fold_left fst snd].
     rewrite dget_set_same.
     rewrite !dget_set_other by discriminate.
